@@ -216,6 +216,19 @@ def run_case(case, work, rec):
                               witness={"mutations": muts, "level": lv, "boxes": want,
                                        "returned": len(got) if isinstance(got, (list, tuple)) else type(got).__name__})
                 return
+        # (4) under a level limit the finest validated level is also level -1 of the reader opened with that limit
+        if limit is not None and (L, 0) in exps and exps[(L, 0)] is not None:
+            try:
+                got = pck[nf - 1][-1][0]
+                ok = isinstance(got, np.ndarray) and refparse.biteq(got, exps[(L, 0)][..., nf - 1])
+            except Exception as e:
+                got, ok = None, False
+            rec.count("negative_level_reads_under_a_limit")
+            if not ok:
+                rec.violation(f"validation accepted but level -1 of the reader opened with limit_level={limit} is not the finest "
+                              f"validated level (box 0 read {'raised' if got is None else 'differs'}): {descr}", key=key + ("neg",),
+                              witness={"mutations": muts, "limit_level": limit})
+                return
         rec.count("accepted_and_read")
         for kd, mu in zip(kinds, muts):
             if kd == "tol":
